@@ -1407,10 +1407,19 @@ rrul_fill_wly(echs_instant_t *restrict tgt, size_t nti, rrulsp_t rr)
 				     m = 1U;
 			     }
 			     maxd = echs_scale_ndim(srcsca, y, m);
+			     if (UNLIKELY(!maxd)) {
+				     /* beyond what the scale knows about */
+				     goto fin;
+			     }
 		     }
 	     })) {
 		uint_fast32_t incs = wd_incs;
 		unsigned int this_maxd = maxd;
+
+		if (UNLIKELY(!maxd)) {
+			/* month unknown to the scale */
+			goto fin;
+		}
 		unsigned int this_d = d;
 		unsigned int this_m = m;
 		unsigned int this_y = y;
@@ -1426,6 +1435,10 @@ rrul_fill_wly(echs_instant_t *restrict tgt, size_t nti, rrulsp_t rr)
 				}
 				this_maxd =
 					echs_scale_ndim(srcsca, this_y, this_m);
+				if (UNLIKELY(!this_maxd)) {
+					/* beyond what the scale knows about */
+					goto fin;
+				}
 			}
 
 			for (ENUM_INIT(e, iS, iM, iH);
@@ -1568,8 +1581,16 @@ rrul_fill_dly(echs_instant_t *restrict tgt, size_t nti, rrulsp_t rr)
 				     m = 1U;
 			     }
 			     maxd = echs_scale_ndim(srcsca, y, m);
+			     if (UNLIKELY(!maxd)) {
+				     /* beyond what the scale knows about */
+				     goto fin;
+			     }
 		     }
 	     })) {
+		if (UNLIKELY(!maxd)) {
+			/* month unknown to the scale */
+			goto fin;
+		}
 		/* we're subtractive, so check if the current ymd matches
 		 * if not, just continue and check the next candidate */
 		if (!(wd_mask & (1U << w))) {
